@@ -796,21 +796,23 @@ static void part_b2a(void) {
 	int pt, k, maxk = VF_THOROUGH ? 3 : 2;
 	for (pt = 0; pt < 7; pt++)
 		for (k = 0; k <= maxk; k++) {
-			int ngroups = k == 0 ? 1 : k < 3 ? 7 : 49, g;
+			int ngroups = k == 0 ? 1 : k < 3 ? 7 : 98, g;   /* k = 3: (first child tag, second child tag, parent flag half) */
 			for (g = 0; g < ngroups; g++) {
 				int pf;
 				long i1, i2, i3;
 				if (!begin_case("b2a", "ptag%x:k%d:g%d", TAGS[pt], k, g)) continue;
 				for (pf = 0; pf < 4; pf++) {
+					int g2 = g % 49;
+					if (k == 3 && pf / 2 != g / 49) continue;
 					if (k == 0) {
 						/* a parent without children cannot be built through the tree API: element codec only sees it as an empty leaf */
 						rt_reset(); battery(leafx(TAGS[pt], pf, 0, 0));
 						continue;
 					}
 					for (i1 = 0; i1 < 56; i1++) {
-						if ((int)(i1 % 7) != (k < 3 ? g : g % 7)) continue;
+						if ((int)(i1 % 7) != (k < 3 ? g : g2 % 7)) continue;
 						for (i2 = 0; i2 < (k >= 2 ? 56 : 1); i2++) {
-							if (k == 3 && (int)(i2 % 7) != g / 7) continue;
+							if (k == 3 && (int)(i2 % 7) != g2 / 7) continue;
 							for (i3 = 0; i3 < (k >= 3 ? 56 : 1); i3++) {
 								rnode *r;
 								rt_reset();
